@@ -40,3 +40,24 @@ Definition ml_session (k r L : nat) (H : list (list nat)) (lastnull : bool) (val
        end)
     end
   end.
+
+(* callback log of a session (C11): the columns for which the library invokes the decoded-symbol
+   callbacks, in call order, for the streaming part and (if requested) the ML finish.  Events.v's
+   logged versions are proved to compute the same states as the functions above (EventsProofs.v). *)
+From OFV Require Import Events.
+Definition ev_session (k r L : nat) (H : list (list nat)) (lastnull : bool) (vals : list (list N)) (esis : list nat) (fin : bool) (perm : list nat)
+  : option (list nat) :=
+  let n := k + r in
+  let fuel := S (S n) in
+  let s0 := init (list N) r n H in
+  let s1 := if lastnull then decode bxor (repeat 0%N L) fuel s0 (col_of k r (n - 1)) (repeat 0%N L) else Some s0 in
+  match s1 with
+  | None => None
+  | Some s =>
+    match run_ev bxor (repeat 0%N L) fuel s (map (fun e => (col_of k r e, nth e vals [])) esis) with
+    | None => None
+    | Some (sf, l1) =>
+      if fin then match ml_finish_ev bxor (repeat 0%N L) fuel perm sf with None => None | Some (_, l2) => Some (l1 ++ l2) end
+      else Some l1
+    end
+  end.
